@@ -33,6 +33,12 @@ structure AttrAssign where
   val : Expr
 deriving Repr, Inhabited
 
+structure AttachIR where
+  to : Nat            -- 1-based item the slot is attached to
+  atP : String        -- name of the attachment point on the target's glyph
+  withP : String      -- name of the attachment point on the own glyph
+deriving Repr, Inhabited
+
 structure ItemIR where
   inCls : Option Nat
   mod : Bool
@@ -40,6 +46,7 @@ structure ItemIR where
   assoc : List Nat
   attrs : List AttrAssign := []
   constraint : Option Expr := none
+  attach : Option AttachIR := none
 deriving Repr, Inhabited
 
 structure RuleIR where
@@ -118,6 +125,7 @@ structure ProgIR where
   ignoreBad : Bool := false
   gattrValues : List (Nat × List Int) := []     -- (glyph, values of the IR's glyph attributes) - engine-level runs
   advances : List Int := []                     -- advance width per glyph id (hmtx of the input font)
+  points : List (String × List (Nat × Int × Int)) := []   -- attachment points: name -> (glyph, x, y)
   numUser : Nat := 4
 deriving Inhabited
 
@@ -183,7 +191,10 @@ def parseItem (j : Json) : Except String ItemIR := do
       else pure ({ attr := nm, op := op, val := v } : AttrAssign)
   let cj := j.getObjValD "constraint"
   let constraint ← if cj.isNull then pure none else some <$> parseExpr cj
-  return { inCls, mod, out, assoc, attrs, constraint }
+  let tj := j.getObjValD "attach"
+  let attach ← if tj.isNull then pure none else do
+    pure (some ({ to := ← jNat (← tj.getObjVal? "to"), atP := ← (← tj.getObjVal? "at").getStr?, withP := ← (← tj.getObjVal? "with").getStr? } : AttachIR))
+  return { inCls, mod, out, assoc, attrs, constraint, attach }
 
 partial def parseElem (j : Json) : Except String Opt.Elem := do
   match j.getNat? with
@@ -279,9 +290,21 @@ def parseProgIR (text : String) : Except String ProgIR := do
       pure ((← jNat t[0]!), vs)
   let adj := j.getObjValD "advances"
   let advances ← if adj.isNull then pure [] else (← adj.getArr?).toList.mapM (·.getInt?)
+  let ptj := j.getObjValD "points"
+  let points ← if ptj.isNull then pure [] else do
+    let arr ← ptj.getArr?
+    arr.toList.mapM fun e => do
+      let t ← e.getArr?
+      if t.size != 2 then throw "bad-input: points entry"
+      let nm ← t[0]!.getStr?
+      let vs ← (← t[1]!.getArr?).toList.mapM fun q => do
+        let u ← q.getArr?
+        if u.size != 3 then throw "bad-input: point triple"
+        pure ((← jNat u[0]!), (← u[1]!.getInt?), (← u[2]!.getInt?))
+      pure (nm, vs)
   return {
     features, languages, nameStart, classRefs, autoPseudo, ignoreBad,
-    gattr, gattrValues, advances,
+    gattr, gattrValues, advances, points,
     numGlyphs := ← jNat (← j.getObjVal? "numGlyphs"), numReal := ← jNat (← j.getObjVal? "numReal"),
     lb := ← jNat (← j.getObjVal? "lb"), phantom := ← jNat (← j.getObjVal? "phantom"),
     anyClass := ← jNat (← j.getObjVal? "anyClass"), classes, classDefs, passes }
